@@ -47,6 +47,15 @@ where
     }
 }
 
+/// The undefined label that comes first in the source. The set has no order of
+/// its own, and the reported position must not depend on how it happens to hash.
+fn first_label(labels: &HashSet<LabelStringToken>) -> &LabelStringToken {
+    labels
+        .iter()
+        .min_by_key(|label| (label.file(), label.range()))
+        .unwrap()
+}
+
 impl Display for CfgError {
     fn fmt(&self, f: &mut std::fmt::Formatter<'_>) -> std::fmt::Result {
         match self {
@@ -87,7 +96,7 @@ impl DiagnosticLocation for CfgError {
             CfgError::MultipleLabelsForReturn(node, _) | CfgError::NoLabelForReturn(node) => {
                 node.file()
             }
-            CfgError::LabelsNotDefined(labels) => labels.iter().next().unwrap().file(),
+            CfgError::LabelsNotDefined(labels) => first_label(labels).file(),
             CfgError::DuplicateLabel(label) => label.file(),
             CfgError::UnexpectedError | CfgError::AssertionError => uuid::Uuid::nil(),
         }
@@ -98,7 +107,7 @@ impl DiagnosticLocation for CfgError {
             CfgError::MultipleLabelsForReturn(node, _) | CfgError::NoLabelForReturn(node) => {
                 node.range()
             }
-            CfgError::LabelsNotDefined(labels) => labels.iter().next().unwrap().range(),
+            CfgError::LabelsNotDefined(labels) => first_label(labels).range(),
             CfgError::DuplicateLabel(label) => label.range(),
             CfgError::UnexpectedError | CfgError::AssertionError => crate::parser::Range::default(),
         }
@@ -109,7 +118,7 @@ impl DiagnosticLocation for CfgError {
             CfgError::MultipleLabelsForReturn(node, _) | CfgError::NoLabelForReturn(node) => {
                 node.raw_text()
             }
-            CfgError::LabelsNotDefined(labels) => labels.iter().next().unwrap().raw_text(),
+            CfgError::LabelsNotDefined(labels) => first_label(labels).raw_text(),
             CfgError::DuplicateLabel(label) => label.raw_text(),
             CfgError::UnexpectedError | CfgError::AssertionError => String::new(),
         }
